@@ -593,7 +593,10 @@ Definition is_msg t := match t with TMsg _ => true | _ => false end.
 
 Definition EVENT_FUEL : nat := 4000.
 
-Definition run_gen (pin : bool) (input : list N) : list N :=
+(* the simulation at its stopping point, and the handles that are then dropped, in drop order:
+   the Sim (module tree, globals, the guard's event buffer), the events (with the runtime, or as
+   the profiler's `remaining`), the caller's own references *)
+Definition stop_state (pin : bool) (input : list N) : world * list nat * (N * N * N) :=
   let stop := hd0 input mod 6 in let l := tl0 input in
   let arg := hd0 l in let l := tl0 l in
   let order := N.odd (hd0 l) in let l := tl0 l in
@@ -622,10 +625,14 @@ Definition run_gen (pin : bool) (input : list N) : list N :=
   let pending := fes_events w in
   let nrem : N := if res =? 2 then 0 else N.of_nat (length pending) in
   let time : N := if (res =? 2) || (stop =? 0) then 0 else w_clock w in
-  (* drop: the Sim (tree, globals, the guard's event buffer), the events (with the runtime, or as the
-     profiler's `remaining`), the caller's own references *)
   let sim_roots := [w_tree w; w_glob w] ++ map fst (w_buf w) in
   let roots := (if (res =? 1) && order then pending ++ sim_roots else sim_roots ++ pending) ++ w_held w in
+  (w, roots, (res, nrem, time)).
+
+Definition alive_users (h : heap) : N := N.of_nat (length (filter (fun ob => user_tag (otag ob) && live ob) h)).
+
+Definition run_gen (pin : bool) (input : list N) : list N :=
+  let '(w, roots, (res, nrem, time)) := stop_state pin input in
   let ok := goodb pin (w_st w) roots in
   let s' := release_all (w_st w) roots in
   let h' := hp s' in
@@ -633,8 +640,7 @@ Definition run_gen (pin : bool) (input : list N) : list N :=
   let once := [count_once is_proc s'; count_once is_elem s'; count_once is_task s'; count_once is_msg s'] in
   let total := count_tag user_tag h' in
   let notonce := total - (nth 0 once 0 + nth 1 once 0 + nth 2 once 0 + nth 3 once 0) in
-  let alive := N.of_nat (length (filter (fun ob => user_tag (otag ob) && live ob) h')) in
-  let rec := [b2n ok; res; nrem; time] ++ created ++ once ++ [notonce; alive; N.of_nat (length (w_log w) / 4)] ++ w_log w in
+  let rec := [b2n ok; res; nrem; time] ++ created ++ once ++ [notonce; alive_users h'; N.of_nat (length (w_log w) / 4)] ++ w_log w in
   rec ++ rec.
 
 Definition run (input : list N) : list N := run_gen false input.
